@@ -12,7 +12,7 @@ from __future__ import annotations
 
 import dataclasses
 
-KINDS = ("move-recv", "add-needed")
+KINDS = ("move-recv", "add-needed", "dup-send")
 
 
 def _like(mapping, items):
@@ -36,6 +36,13 @@ def candidates(partition, kind):
             for j in pids:
                 if i != j and j not in partition.parts[i].needed_pids:
                     out.append((i, j))
+    elif kind == "dup-send":
+        # the same send a second time under the same name: two sends with one
+        # (source, destination, tag) -- a mismatch, not an ordering problem
+        for i in pids:
+            for name in sorted(partition.parts[i].name_to_send_nodes):
+                for k in range(len(partition.parts[i].name_to_send_nodes[name])):
+                    out.append((i, name, k))
     else:
         raise ValueError(kind)
     return out
@@ -60,6 +67,16 @@ def apply(partition, tamper):
             pi.name_to_recv_node,
             [*pi.name_to_recv_node.items(), (name, recv)]))
         desc = f"receive {name} moved from part {j} to part {i}"
+    elif tamper["kind"] == "dup-send":
+        i, name, k = c
+        pi = parts[i]
+        sends = list(pi.name_to_send_nodes[name])
+        sends.append(sends[k])
+        parts[i] = dataclasses.replace(pi, name_to_send_nodes=_like(
+            pi.name_to_send_nodes,
+            [(n, (sends if n == name else v))
+             for n, v in pi.name_to_send_nodes.items()]))
+        desc = f"send {k} of {name} in part {i} duplicated"
     else:
         i, j = c
         parts[i] = dataclasses.replace(
